@@ -1011,9 +1011,47 @@ static void op_amrd(const std::vector< std::string > &w) {
           if (pf[i] <= lo + 1.e-11 * sc[i] || pf[i] >= hi - 1.e-11 * sc[i])
             onface = true;
         }
-        if (!onface)
-          bad = "amrdensitygrid-escaped-inside-the-box";
+        if (!onface) {
+          // signature of a known defect: the photon was absorbed in a cell whose exit wall (along
+          // the direction of travel) is an open face of the box, and end() is returned
+          bool boundary = false;
+          if (in_box(amrd_box, pf, 0., sc)) {
+            const Box<> g = amrd->_cells[amrd->get_cell_index(pf)]->get_geometry();
+            double best = DBL_MAX;
+            int bax = -1;
+            bool bup = false;
+            for (int i = 0; i < 3; ++i) {
+              if (dir[i] == 0.)
+                continue;
+              const bool up = dir[i] > 0.;
+              const double l = ((up ? g.get_anchor()[i] + g.get_sides()[i] : g.get_anchor()[i]) - pf[i]) / dir[i];
+              if (l < best) {
+                best = l;
+                bax = i;
+                bup = up;
+              }
+            }
+            if (bax >= 0 && !amrd_per[bax]) {
+              const double wall = bup ? g.get_anchor()[bax] + g.get_sides()[bax] : g.get_anchor()[bax];
+              const double face = bup ? amrd_box.get_anchor()[bax] + amrd_box.get_sides()[bax] : amrd_box.get_anchor()[bax];
+              boundary = std::fabs(wall - face) <= 1.e-11 * sc[bax];
+            }
+          }
+          bad = boundary ? "amrdensitygrid-absorbed-in-boundary-cell-reported-as-escaped"
+                         : "amrdensitygrid-escaped-inside-the-box";
+        }
       }
+    }
+    if (bad == "amrdensitygrid-absorbed-outside-the-returned-cell") {
+      // signature of a known defect: after a periodic wrap into a refined neighbour the descent uses
+      // the unwrapped position and enters the wrong child
+      bool wrapped = false;
+      for (int i = 0; i < 3; ++i)
+        if (amrd_per[i] &&
+            std::fabs(std::round((pf[i] - p0[i] - S * dir[i] / dlen) / amrd_box.get_sides()[i])) >= 1.)
+          wrapped = true;
+      if (wrapped)
+        bad = "amrdensitygrid-periodic-wrap-enters-wrong-child-of-refined-neighbour";
     }
     if (!bad.empty())
       oracle(bad);
